@@ -1,9 +1,11 @@
 (** * C07/C08, leaf layer (3): the codec configuration boxes (avcC, hvcC, hev1)
 
-    Their counts and lengths are u8/u16 fields that are NOT compared with the box size before the
-    allocation, so the bounds below are the constants these field widths allow (a NAL unit length is
+    State-independent bounds: the constants the u8/u16 field widths allow (a NAL unit length is
     below 65536, an hvcC array holds fewer than 65536 NAL units of 32 bytes of bookkeeping each, ...):
-    fixed numbers, independent of the input, but larger than the input can be. *)
+    fixed numbers, independent of the input, but larger than the input can be.  (Since the fix
+    "check the hvcC nal unit count against the box before allocating" the count of an hvcC array
+    is compared with the bytes left in the box, one more [stream_position] call per array; a bound
+    that does not look at the position cannot see that.) *)
 From MP4 Require Import Cost CostLeaf.
 From MP4 Require Import BoxAvc1 BoxHev1.
 From Coq Require Import ZArith ZifyN ZifyNat ZifyBool Lia.
@@ -38,7 +40,7 @@ Qed.
 (** hvcC: [num_of_arrays : u8] arrays of [num_nalus : u16] NAL units of [size : u16] bytes each *)
 Definition hvcc_nalu_W : N := 65542.
 Definition hvcc_nalu_A : N := 65535.
-Definition hvcc_array_W : N := Eval vm_compute in 5 + 65535 * hvcc_nalu_W.
+Definition hvcc_array_W : N := Eval vm_compute in 6 + 65535 * hvcc_nalu_W.
 Definition hvcc_array_A : N := Eval vm_compute in 65535 * 32 + 65535 * hvcc_nalu_A.
 Definition hvcc_W : N := Eval vm_compute in 100 + 255 * hvcc_array_W.
 Definition hvcc_A : N := Eval vm_compute in 255 * 32 + 255 * hvcc_array_A.
